@@ -910,6 +910,34 @@ func (st *Store) sbits(a *Term) int {
 		}
 	case OSExt:
 		return st.sbits(a.A[0])
+	case OAdd, OSub:
+		// sums of narrow values stay narrow (the bound is below the width, so no wrap-around)
+		b := st.sbits(a.A[0])
+		if c := st.sbits(a.A[1]); c > b {
+			b = c
+		}
+		if b+1 > a.S.W {
+			b = a.S.W - 1
+		}
+		st.intBits[a.ID] = b + 1
+		return b + 1
+	case ONeg:
+		b := st.sbits(a.A[0])
+		if b+1 > a.S.W {
+			b = a.S.W - 1
+		}
+		st.intBits[a.ID] = b + 1
+		return b + 1
+	case OIte:
+		if a.S.K != KBV {
+			break
+		}
+		b := st.sbits(a.A[1])
+		if c := st.sbits(a.A[2]); c > b {
+			b = c
+		}
+		st.intBits[a.ID] = b
+		return b
 	}
 	return a.S.W
 }
@@ -1116,6 +1144,17 @@ func (st *Store) FBin(op Op, a, b *Term) *Term {
 					}
 					if a.Op == OConst && a.F() > 0 && ba+bb <= 54 {
 						return st.mkIntFloat(st.Bin(OMul, ia, ib), ba+bb)
+					}
+				case OFDiv:
+					// (x*C)/C for a positive integral constant C and an exact product: x
+					if b.Op == OConst && b.F() > 0 && ib.Op == OConst && ia.Op == OMul {
+						for k := 0; k < 2; k++ {
+							if c, x := ia.A[k], ia.A[1-k]; c.Op == OConst && c.C == ib.C {
+								if bx := st.sbits(x); bx+bb <= 54 {
+									return st.mkIntFloat(x, bx)
+								}
+							}
+						}
 					}
 				case OFEq:
 					return st.Eq(ia, ib)
